@@ -987,6 +987,22 @@ func (e *Env) call(x *ECall) *CV {
 			efail("typeis(iface, \"type\")")
 		}
 		return cvBool(Eq(a.V.S, IntLit(typeTagByName(s.S))))
+	case "implements":
+		// implements(x, "pkg.Iface"): the dynamic type of interface value x implements the named interface
+		a := arg(0)
+		s, ok := x.Args[1].(*EStr)
+		if !ok || a.K != CVal || a.V.K != VIface {
+			efail("implements(iface, \"pkg.Interface\")")
+		}
+		t := typeByName(s.S)
+		if t == nil {
+			efail("unknown type %s", s.S)
+		}
+		it := implTerm(t, a.V.S)
+		if it == nil {
+			efail("%s is not a named interface type with methods", s.S)
+		}
+		return cvBool(it)
 	case "unbox":
 		// unbox(x, "pkg.*T"): payload of interface value as the named type
 		a := arg(0)
